@@ -147,4 +147,23 @@ PROPS = {
             "numbers are drawn from a list whose shortest decimal form is under 15 characters",
         ],
     },
+    "C08": {
+        "level": "exploration",
+        "technique": "property-based testing (rapid), metamorphic: one generated typed AST rendered in two documented-equivalent ways (or rewritten by let-inlining / poisoning unselected branches); both evaluated by the real evaluator and compared",
+        "level_text": "Generated-input search: closed, typed-by-construction programs over numbers, booleans, sets, arrays, tuples and strings (let, cond, "
+                      "&&, ||, !, comparisons incl. chains, <:, set and arithmetic operators, with/without, +>, ++, .attr, safe calls, count, unary minus, "
+                      "where/=>/>>/orderby/sum with the implicit binder). Rendering A uses minimal parentheses from the documented precedence table; rendering B "
+                      "applies a random subset of: full parenthesisation, comments/whitespace/redundant parentheses, let as -> \\x or (\\x body)(e), the implicit "
+                      "binder as \\. or \\x, sugar literals spelled out as sets of tuples, let-bound names replaced by their values, branches that cond/&&/|| must not "
+                      "evaluate replaced by failing expressions (conditions are closed and their truth is computed by the generator). A and B must both fail or "
+                      "give Equal values with identical printed form.",
+        "level_note": "Trusted: the printer's precedence table (DESIGN.md appendix B, taken from syntax/arrai.wbnf), the generator's own evaluation of closed boolean conditions, rapid. "
+                      "Grammar quirks that are not about meaning are kept out of the domain: a bare '.' directly before a word operator is always parenthesised; 'if/else' (deprecated) and "
+                      "'cond x {...}' control values are not generated here (C09 covers cond patterns).",
+        "tests": [{"name": "TestC08", "quick": 1500, "thorough": 25000}],
+        "rule": "non-trivial: the program has at least two operators, the two renderings differ as text and both evaluate to a value. Distinct = distinct pair of texts.",
+        "assumptions": COMMON_ASSUMPTIONS + [
+            "orderby keys are injective functions of the element (ties are exempt by the property)",
+        ],
+    },
 }
